@@ -38,7 +38,7 @@ PROBES_REQUIRED = ["fs_vanished", "fs_fault_stat_EACCES", "special_enumerated"]
 KINDS = ["dangling", "loop", "fifo", "socket", "dotdot", "backslash", "stat-ENOENT",
          "stat-EACCES", "stat-EIO", "vanish-stat", "vanish-open", "dot-dangling", "dot-socket",
          "dot-fifo", "vanish-any", "vanish-sidecar", "sidecar-socket", "sidecar-dangling",
-         "sidecar-fifo"]
+         "sidecar-fifo", "dot-loop", "dot-stat-EACCES", "dot-stat-EIO", "dot-stat-ELOOP", "stat-ELOOP"]
 PREFIXES = ["0", "a", "m", "zz", "B"]
 
 
@@ -109,6 +109,13 @@ def _bad_entry(rng, kind, pre, i):
             ent.append({"p": pre + name, "k": "fifo"})
         else:
             ent.append({"p": pre + name, "k": "symlink", "to": "nowhere-" + base})
+    elif kind == "dot-loop":
+        name = "." + base
+        ent.append({"p": pre + name, "k": "symlink", "to": name})
+    elif kind.startswith("dot-stat-"):
+        name = "." + base
+        ent.append({"p": pre + name, "k": "file", "d": "# a link file that cannot be inspected\n"})
+        faults.append({"op": "stat", "rel": pre + name, "kind": kind[9:], "nth": "all", "after_listed": True})
     elif kind == "dot-dangling":
         name = "." + base
         ent.append({"p": pre + name, "k": "symlink", "to": "nowhere-" + base})
@@ -145,6 +152,17 @@ def gen(seed, index, tier):
             else:
                 badspec.append(e)
         faults.extend(fl)
+    # sometimes a UMN link file also talks about the unservable entry (hides it, titles it)
+    if rng.random() < 0.3 and not any(e["p"] == pre + ".names" for e in base):
+        blocks = []
+        for b in bad:
+            if b.startswith("."):
+                continue
+            blocks.append(rng.choice(["Path=./%s\nType=X\n" % b,
+                                      "Path=./%s\nName=Titled %s\nNumb=%d\n" % (b, b, rng.randrange(1, 4)),
+                                      "Path=./%s\nType=X\n\nPath=./%s\nName=Again\n" % (b, b)]))
+        if blocks:
+            base.append({"p": pre + ".names", "k": "file", "d": "\n".join(blocks)})
     return {
         "spec": base, "bad_spec": badspec, "bad": bad, "kinds": kinds, "faults": faults,
         "dir": dname, "proto": rng.choice(proto.LISTING_PROTOCOLS),
@@ -220,7 +238,7 @@ def execute(sc, tape=None):
                             "detail": "proto=%s got=%r" % (sc["proto"], common.short(got, 300))}
                 else:
                     stripped = _strip_bad(ents, sc)
-                    cmp_a, cmp_b = stripped, ref_entries
+                    cmp_a, cmp_b = stripped, _strip_bad(ref_entries, sc)
                     if sc["proto"] == "wap":
                         pass  # access keys are not part of the parsed entries
                     if cmp_a != cmp_b:
@@ -232,7 +250,7 @@ def execute(sc, tape=None):
             counters = common.run_counters(run)
             if inconclusive:
                 counters["unparsed_success_no_verdict"] = 1
-        special = any(k in ("dangling", "loop", "fifo", "socket", "dotdot", "backslash",
+        special = any(k in ("dot-loop", "dangling", "loop", "fifo", "socket", "dotdot", "backslash",
                             "dot-dangling", "dot-socket", "dot-fifo", "sidecar-socket",
                             "sidecar-dangling", "sidecar-fifo") for k in sc["kinds"])
         if special and counters.get("fs_listdir", 0):
